@@ -1090,15 +1090,174 @@ fn concrete_stage(sink: &mut Sink, args: &Args, rng: &mut Rng) {
     }
 }
 
+// ---------------------------------------------------------------- the command-line tool (sudachi-cli/src/analysis.rs)
+// The tool keeps ONE tokenizer and ONE result list for all lines of its input.  History independence stated on the tool
+// itself: what one process prints for a file must be the concatenation of what a fresh process prints for every single
+// line (same options).  No model of the output format is involved.
+fn cli_run(cli: &str, cfg: &str, res: &str, work: &std::path::Path, mode: &str, split: &str, wakati: bool, all: bool, content: &[u8]) -> Result<Vec<u8>, String> {
+    let inp = work.join("c10_cli_input.txt");
+    std::fs::write(&inp, content).map_err(|e| e.to_string())?;
+    let mut cmd = std::process::Command::new(cli);
+    cmd.arg("-r").arg(cfg).arg("-p").arg(res).arg("-m").arg(mode).arg("--split-sentences").arg(split);
+    if wakati {
+        cmd.arg("-w");
+    }
+    if all {
+        cmd.arg("-a");
+    }
+    cmd.arg(&inp);
+    match cmd.output() {
+        Ok(o) if o.status.success() => Ok(o.stdout),
+        Ok(o) => Err(format!("exit status {:?}: {}", o.status.code(), String::from_utf8_lossy(&o.stderr).chars().take(300).collect::<String>())),
+        Err(e) => Err(e.to_string()),
+    }
+}
+
+/// the lines of a file as the tool reads them, each with its terminator
+fn lines_with_terminators(file: &str) -> Vec<&str> {
+    let mut v = vec![];
+    let mut rest = file;
+    while !rest.is_empty() {
+        match rest.find('\n') {
+            Some(i) => {
+                v.push(&rest[..=i]);
+                rest = &rest[i + 1..];
+            }
+            None => {
+                v.push(rest);
+                rest = "";
+            }
+        }
+    }
+    v
+}
+
+fn cli_case(sink: &mut Sink, args: &Args, cache: &mut std::collections::HashMap<String, Result<Vec<u8>, String>>, file: &str, mode: &str, split: &str, wakati: bool, all: bool, verbose: bool) {
+    let cli = std::env::var("VERIF_CLI_BIN").unwrap_or_default();
+    let res = format!("{}/python/tests/resources", repo());
+    let cfg = format!("{}/sudachi.json", res);
+    let lines = lines_with_terminators(file);
+    let blank_after_text = lines.iter().enumerate().any(|(i, l)| l.trim_end_matches(&['\r', '\n'][..]).is_empty() && lines[..i].iter().any(|p| !p.trim_end_matches(&['\r', '\n'][..]).is_empty()));
+    let desc = json!({"kind": "cli-lines", "file": file, "mode": mode, "split": split, "wakati": wakati, "all": all});
+    sink.tag("cli:file_vs_fresh_process_per_line");
+    sink.tag(&format!("cli:split_sentences={}", split));
+    if blank_after_text {
+        sink.tag("cli:blank_line_after_text");
+    }
+    if file.contains("\r\n") {
+        sink.tag("cli:crlf");
+    }
+    let id = sink.case_rust_only(desc, blank_after_text);
+    let whole = cli_run(&cli, &cfg, &res, &args.work, mode, split, wakati, all, file.as_bytes());
+    let mut expected: Vec<u8> = vec![];
+    let mut per_line: Vec<Vec<u8>> = vec![];
+    for l in &lines {
+        let key = format!("{}|{}|{}|{}|{}", mode, split, wakati, all, l);
+        let r = cache.entry(key).or_insert_with(|| cli_run(&cli, &cfg, &res, &args.work, mode, split, wakati, all, l.as_bytes())).clone();
+        match r {
+            Ok(o) => {
+                expected.extend_from_slice(&o);
+                per_line.push(o);
+            }
+            Err(e) => {
+                sink.fail(id, &format!("sudachi -m {} --split-sentences {}{}{} on the single line {:?}: {}", mode, split, if wakati { " -w" } else { "" }, if all { " -a" } else { "" }, l, e), "");
+                return;
+            }
+        }
+    }
+    if verbose {
+        println!("one process for the file:\n{}\nfresh process per line:\n{}", whole.as_ref().map(|o| String::from_utf8_lossy(o).to_string()).unwrap_or_else(|e| e.clone()), String::from_utf8_lossy(&expected));
+    }
+    match whole {
+        Err(e) => sink.fail(id, &format!("sudachi -m {} --split-sentences {} on the file {:?}: {}", mode, split, file, e), ""),
+        Ok(o) => {
+            if o != expected {
+                // the first line whose share of the output differs
+                let mut off = 0usize;
+                let mut which = lines.len();
+                for (i, pl) in per_line.iter().enumerate() {
+                    if o.len() < off + pl.len() || &o[off..off + pl.len()] != &pl[..] {
+                        which = i;
+                        break;
+                    }
+                    off += pl.len();
+                }
+                let got = String::from_utf8_lossy(&o[off.min(o.len())..]).chars().take(160).collect::<String>();
+                let exp = per_line.get(which).map(|p| String::from_utf8_lossy(p).to_string()).unwrap_or_default();
+                sink.fail(
+                    id,
+                    &format!("sudachi -m {} --split-sentences {}{}{} over the file {:?}: for line {} ({:?}) one process prints {:?}... where a fresh process prints {:?}", mode, split, if wakati { " -w" } else { "" }, if all { " -a" } else { "" }, file, which, lines.get(which).unwrap_or(&""), got, exp),
+                    "",
+                );
+            }
+        }
+    }
+}
+
+fn cli_stage(sink: &mut Sink, args: &Args, rng: &mut Rng, replay: Option<Value>) {
+    let cli = std::env::var("VERIF_CLI_BIN").unwrap_or_default();
+    if cli.is_empty() || !std::path::Path::new(&cli).exists() {
+        sink.tag("cli_stage_skipped(binary not staged)");
+        return;
+    }
+    std::fs::create_dir_all(&args.work).unwrap();
+    let mut cache = std::collections::HashMap::new();
+    if let Some(c) = replay {
+        cli_case(sink, args, &mut cache, c["file"].as_str().unwrap(), c["mode"].as_str().unwrap(), c["split"].as_str().unwrap(), c["wakati"].as_bool().unwrap(), c["all"].as_bool().unwrap(), true);
+        return;
+    }
+    // directed: longer, shorter, blank, blank again, compound, blank at the end; CRLF; no final newline; leading blank
+    let directed = [
+        ("京都に行く\n\n東京都\n京都\n\n\n東京都に行く\n\n", "C", "no", false, false),
+        ("京都に行く\n\n東京都\n\n", "A", "no", true, false),
+        ("東京都に行った。京都。\r\n\r\n京都\r\n", "B", "no", false, true),
+        ("\n東京都\n\n京都に行く", "C", "yes", false, false),
+        ("東京都\n\n京都\n", "A", "yes", true, false),
+    ];
+    for (f, m, sp, w, a) in directed {
+        cli_case(sink, args, &mut cache, f, m, sp, w, a, false);
+        sink.tag("cli:directed_file");
+    }
+    let pool = ["", "", "東京都", "京都に行く", "東京都に行った。京都。", "京都", "特a東京都", "に", "東京都東京都に行った"];
+    let long = "東京都に行った。".repeat(150);
+    for _ in 0..args.n(14, 80) {
+        let crlf = rng.chance(1, 4);
+        let n = 2 + rng.below(5);
+        let mut f = String::new();
+        for k in 0..n {
+            let l = if rng.chance(1, 12) { long.as_str() } else { *rng.pick(&pool) };
+            f.push_str(l);
+            if k + 1 < n || rng.chance(3, 4) {
+                f.push_str(if crlf { "\r\n" } else { "\n" });
+            }
+        }
+        let m = *rng.pick(&["A", "B", "C"]);
+        let sp = if rng.chance(2, 3) { "no" } else { "yes" };
+        let (w, a) = match rng.below(3) {
+            0 => (true, false),
+            1 => (false, true),
+            _ => (false, false),
+        };
+        cli_case(sink, args, &mut cache, &f, m, sp, w, a, false);
+    }
+    sink.tag_n("cli:processes_started", cache.len() as u64);
+}
+
 pub fn run(args: &Args) {
     let mut sink = Sink::new("C10", &args.out, &["Model.TokState", "Proofs.TokStateConcrete"], args.seed, &args.tier);
     sink.shard_size = 60;
-    sink.rule("per generated dictionary (as in C09, with DefaultInputTextPlugin + length-changing rewrite.def and a path rewrite plugin that fails on '!'): a pool of texts (empty, short, long, oversized for start_build, oversized after rewriting, late-failing) and random sequences of 1..9 operations {set_mode, set_subset (all / random / narrow requests), analyse, new list, collect into a possibly reused list, split_into, lookup, another tokenizer collecting into the shared list} -- half of them call-structured: [request change] analyse collect, mostly into the same list -- on one StatefulTokenizer, then a probe (analyse + collect into a possibly reused list) compared in outcome, boundaries, word ids, every requested field and the on-demand split (split_into A/B) of every morpheme -- into a fresh list and into every other result list of the run with its own history (as left, and after clear()) -- with (1) a fresh tokenizer carrying the same accumulated field set and (2) a fresh tokenizer of the same mode given the user's field request (default or last set_subset); plus a slice run on the INSTANTIATED machine (Proofs/TokStateConcrete.v: stages = Tokenizer.tokenize_model's, word infos under the loaded subset): small dictionaries shipped as tables, texts of at most 12 characters, the whole history replayed in Coq and the probe compared in byte ranges and word ids; plus sudachipy sessions (module built from the working tree): 1..5 tokenize calls with per-call mode override / out= reuse / rejected texts, Morpheme.split (modes A/B/C, out= reuse, add_single) and Dictionary.lookup(out=) in between, then a probe call (tokenize, or Morpheme.split of the last result in any mode into a possibly non-empty reused list) compared in boundaries, word ids, every requested field and tokenizer.mode with a fresh Tokenizer of the same mode and fields; non-trivial = the history holds at least one analysis and the probe yields tokens");
+    sink.rule("per generated dictionary (as in C09, with DefaultInputTextPlugin + length-changing rewrite.def and a path rewrite plugin that fails on '!'): a pool of texts (empty, short, long, oversized for start_build, oversized after rewriting, late-failing) and random sequences of 1..9 operations {set_mode, set_subset (all / random / narrow requests), analyse, new list, collect into a possibly reused list, split_into, lookup, another tokenizer collecting into the shared list} -- half of them call-structured: [request change] analyse collect, mostly into the same list -- on one StatefulTokenizer, then a probe (analyse + collect into a possibly reused list) compared in outcome, boundaries, word ids, every requested field and the on-demand split (split_into A/B) of every morpheme -- into a fresh list and into every other result list of the run with its own history (as left, and after clear()) -- with (1) a fresh tokenizer carrying the same accumulated field set and (2) a fresh tokenizer of the same mode given the user's field request (default or last set_subset); plus a slice run on the INSTANTIATED machine (Proofs/TokStateConcrete.v: stages = Tokenizer.tokenize_model's, word infos under the loaded subset): small dictionaries shipped as tables, texts of at most 12 characters, the whole history replayed in Coq and the probe compared in byte ranges and word ids; plus the command-line tool (one tokenizer and one result list over the lines of a file): multi-line files (blank lines anywhere, long and short lines, CRLF, no final newline) through `sudachi --split-sentences no / yes`, modes A/B/C, default / -w / -a output, must print the concatenation of what a fresh process prints for every single line; plus sudachipy sessions (module built from the working tree): 1..5 tokenize calls with per-call mode override / out= reuse / rejected texts, Morpheme.split (modes A/B/C, out= reuse, add_single) and Dictionary.lookup(out=) in between, then a probe call (tokenize, or Morpheme.split of the last result in any mode into a possibly non-empty reused list) compared in boundaries, word ids, every requested field and tokenizer.mode with a fresh Tokenizer of the same mode and fields; non-trivial = the history holds at least one analysis and the probe yields tokens");
     let res = prepare_resources(&args.work);
     let cfg = config_json(&res, "");
     if let Some(p) = &args.replay {
         let v: Value = serde_json::from_str(&std::fs::read_to_string(p).unwrap()).unwrap();
         let c = &v["case"];
+        if c["kind"] == "cli-lines" {
+            let mut rng = Rng::new(args.seed);
+            cli_stage(&mut sink, args, &mut rng, Some(c.clone()));
+            sink.finish();
+            return;
+        }
         if c["kind"] == "c10-concrete" {
             let w = conc_world(c["csv"].as_str().unwrap(), c["psm"].as_bool().unwrap(), c["rewrite"].as_u64().unwrap() as u8).expect("dictionary of the replayed case");
             let pool: Vec<Txt> = c["pool"].as_array().unwrap().iter().map(|t| if let Some(s) = t.as_str() { Txt::Plain(s.to_string()) } else if t.get("oversized").is_some() { Txt::Oversized } else { Txt::CommitOverflow }).collect();
@@ -1180,5 +1339,7 @@ pub fn run(args: &Args) {
     python_stage(&mut sink, args, &mut prng, None);
     let mut crng = Rng::new(args.seed ^ 0xC0C);
     concrete_stage(&mut sink, args, &mut crng);
+    let mut lrng = Rng::new(args.seed ^ 0xC11);
+    cli_stage(&mut sink, args, &mut lrng, None);
     sink.finish();
 }
